@@ -164,6 +164,7 @@ type pass struct {
 	race    bool
 	cases   int
 	workDir string
+	chunk   int // cases per worker process (0: spread over the workers)
 }
 
 type runState struct {
@@ -220,6 +221,15 @@ func supervise(args []string) int {
 	var passes []pass
 	if p.RaceOnly {
 		passes = append(passes, pass{name: "race", bin: *raceBin, tier: *tier, race: true})
+		// cold-start trials: one trial per fresh worker process (the concurrent Runs are the
+		// first thing the library does in that process)
+		coldTier := "cold"
+		if *tier == "thorough" {
+			coldTier = "cold-thorough"
+		}
+		if p.Cases(coldTier) > 0 {
+			passes = append(passes, pass{name: "cold", bin: *raceBin, tier: coldTier, race: true, chunk: 1})
+		}
 	} else {
 		passes = append(passes, pass{name: "plain", bin: self, tier: *tier})
 		if *tier == "thorough" && p.RaceInThorough {
@@ -297,6 +307,9 @@ func (st *runState) runPass(ps *pass, nw int) {
 	if chunk < 1 {
 		chunk = 1
 	}
+	if ps.chunk > 0 {
+		chunk = ps.chunk
+	}
 	if ps.race && nw > 8 && st.p.RaceOnly {
 		nw = 6 // C17 trials are themselves multi-goroutine
 	}
@@ -342,6 +355,35 @@ func (st *runState) runSpan(ps *pass, sp span, w int) {
 			st.note("worker for cases %d..%d ended without a result and without an attributable case: %s", sp.from, sp.to, why)
 			return
 		}
+		// a death the Go runtime attributes to the collector finding a pointer into freed memory is
+		// the recorded gorgonia finding (uintptr slice headers), whichever case was executing
+		if isCollectorDeath(why) {
+			sig := props.GCUnreproducedSignature
+			if st.p.ChildProbeSignature != "" {
+				sig = st.p.ChildProbeSignature
+			}
+			st.mu.Lock()
+			st.agg.Cases++
+			st.agg.SigCounts[sig]++
+			st.agg.Violations = append(st.agg.Violations, props.Violation{Idx: idx, Sig: sig, Detail: "worker process died in the collector: " + trimTo(fatalSig(why), 200), Case: fmt.Sprintf("case %d", idx)})
+			st.mu.Unlock()
+			sp.from = idx + 1
+			continue
+		}
+		// a cold-start trial that dies of unsynchronised map access has shown what it is there to
+		// show: the next fresh process need not die again
+		if ps.chunk == 1 && strings.Contains(why, "fatal error: concurrent map") {
+			st.mu.Lock()
+			st.crashes++
+			sig := "fatal:" + fatalSig(why)
+			st.agg.Cases++
+			st.agg.Evaluations++
+			st.agg.SigCounts[sig]++
+			st.agg.Violations = append(st.agg.Violations, props.Violation{Idx: idx, Sig: sig, Detail: "process-level failure in a cold-start trial (the first Runs of a fresh process overlap): " + trimTo(why, 600), Case: fmt.Sprintf("cold-start case %d", idx)})
+			st.mu.Unlock()
+			sp.from = idx + 1
+			continue
+		}
 		// attribute: re-run the culprit alone
 		res2, died2, _, why2 := st.child(ps, span{idx, idx + 1}, tag+"-confirm", 2*caseTimeout)
 		st.mu.Lock()
@@ -370,6 +412,16 @@ func (st *runState) note(format string, a ...any) {
 	st.mu.Lock()
 	st.inconcl = append(st.inconcl, fmt.Sprintf(format, a...))
 	st.mu.Unlock()
+}
+
+// isCollectorDeath recognises the runtime's own diagnosis of a pointer into freed memory.
+func isCollectorDeath(why string) bool {
+	for _, pat := range []string{"found pointer to free object", "marked free object", "found bad pointer in Go heap"} {
+		if strings.Contains(why, pat) {
+			return true
+		}
+	}
+	return false
 }
 
 var fatalRe = regexp.MustCompile(`(?m)^(fatal error: .*|panic: .*|runtime: out of memory.*|SIGSEGV.*|checkptr: .*)$`)
